@@ -681,13 +681,13 @@ static size_t soxr_output_no_callback(soxr_t p, soxr_buf_t out, size_t len)
 #pragma omp parallel for
   for (i = 0; i < (int)p->num_channels; ++i) {
     size_t done1;
-    done1 = soxr_output_1ch(p, (unsigned)i, ((soxr_bufs_t)out)[i], len, separated);
+    done1 = soxr_output_1ch(p, (unsigned)i, separated? ((soxr_bufs_t)out)[i] : out, len, separated);
     if (!i)
       done = done1;
   } else
 #endif
   for (u = 0; u < p->num_channels; ++u)
-    done = soxr_output_1ch(p, u, ((soxr_bufs_t)out)[u], len, separated);
+    done = soxr_output_1ch(p, u, separated? ((soxr_bufs_t)out)[u] : out, len, separated);
 
   if (!separated)
     p->clips += (p->interleave)(p->io_spec.otype, &out, (sample_t const * const *)p->channel_ptrs,
